@@ -21,34 +21,34 @@ LEX_ORACLE_STAGES = {"scan": ["oracle-C09", "oracle-C15"], "split": ["oracle-C15
 
 PROPS = {
  "C09": dict(
-   corr=[("bytes-exh-3", "scan", 0, 0), ("bytes-rand", "scan", 6000, 60000), ("semis", "scan", 3000, 30000),
-         ("lit", "lit", 4000, 40000), ("lit", "scan", 4000, 40000)],
+   corr=[("bytes-exh-3", "scan", 0, 0), ("bytes-rand", "scan", 6000, 300000), ("semis", "scan", 3000, 150000),
+         ("lit", "lit", 4000, 200000), ("lit", "scan", 4000, 200000)],
    thorough_corr=[("bytes-exh-4", "scan", 0, 0)],
-   oracle=[("bytes-exh-3", "oracle-C09", 0, 0), ("bytes-rand", "oracle-C09", 6000, 60000),
-           ("semis", "oracle-C09", 3000, 30000), ("lit", "oracle-C09", 4000, 40000), ("prog", "oracle-C09", 2000, 20000)],
+   oracle=[("bytes-exh-3", "oracle-C09", 0, 0), ("bytes-rand", "oracle-C09", 6000, 300000),
+           ("semis", "oracle-C09", 3000, 150000), ("lit", "oracle-C09", 4000, 200000), ("prog", "oracle-C09", 2000, 100000)],
    oracle_for_stage=LEX_ORACLE_STAGES,
    corpus=["lex.txt"], tables=["Gen/Tables.v: kind, kind_code, keywords"],
    assumptions=["Float64 is strconv.ParseFloat: its correctly rounded result is compared only where the value is exactly representable (oracle), not proved",
                 "error-token message texts are not modelled"]),
  "C15": dict(
-   corr=[("bytes-exh-3", "split", 0, 0), ("semis", "split", 5000, 50000), ("bytes-rand", "split", 4000, 40000),
-         ("semis", "scan", 3000, 30000), ("prog", "parse", 2000, 20000), ("prog-mut", "parse", 2000, 20000), ("semis", "parse", 2000, 20000),
-         ("script", "cli", 500, 5000)],
-   oracle=[("script", "oracle-C16", 500, 5000), ("bytes-exh-3", "oracle-C15", 0, 0), ("semis", "oracle-C15", 5000, 50000),
-           ("bytes-rand", "oracle-C15", 4000, 40000), ("prog", "oracle-C15", 2000, 20000), ("prog-mut", "oracle-C15", 2000, 20000)],
+   corr=[("bytes-exh-3", "split", 0, 0), ("semis", "split", 5000, 250000), ("bytes-rand", "split", 4000, 200000),
+         ("semis", "scan", 3000, 150000), ("prog", "parse", 2000, 100000), ("prog-mut", "parse", 2000, 100000), ("semis", "parse", 2000, 100000),
+         ("script", "cli", 500, 25000)],
+   oracle=[("script", "oracle-C16", 500, 25000), ("bytes-exh-3", "oracle-C15", 0, 0), ("semis", "oracle-C15", 5000, 250000),
+           ("bytes-rand", "oracle-C15", 4000, 200000), ("prog", "oracle-C15", 2000, 100000), ("prog-mut", "oracle-C15", 2000, 100000)],
    oracle_for_stage=LEX_ORACLE_STAGES,
    corpus=["lex.txt"], tables=["Gen/Tables.v: kind, keywords"]),
  "C01": dict(
-   corr=[("expr", "compile", 4000, 40000), ("prog", "compile", 2000, 20000), ("prog-params", "compile", 2000, 20000), ("lets", "compile", 1500, 15000),
-         ("signs", "compile", 0, 0), ("joinconds", "compile", 0, 0), ("joins", "compile", 1000, 10000)],
-   oracle=[("expr", "reread", 4000, 40000), ("prog", "reread", 2000, 20000), ("prog-params", "reread", 2000, 20000), ("lets", "reread", 1500, 15000),
-           ("signs", "reread", 0, 0), ("joinconds", "reread", 0, 0), ("expr", "oracle-C12", 1500, 15000)],
+   corr=[("expr", "compile", 4000, 200000), ("prog", "compile", 2000, 100000), ("prog-params", "compile", 2000, 100000), ("lets", "compile", 1500, 75000),
+         ("signs", "compile", 0, 0), ("joinconds", "compile", 0, 0), ("joins", "compile", 1000, 50000)],
+   oracle=[("expr", "reread", 4000, 200000), ("prog", "reread", 2000, 100000), ("prog-params", "reread", 2000, 100000), ("lets", "reread", 1500, 75000),
+           ("signs", "reread", 0, 0), ("joinconds", "reread", 0, 0), ("expr", "oracle-C12", 1500, 75000)],
    oracle_for_stage={"compile": ["reread"]},
    corpus=["compile.txt", "reserved.txt"], tables=["Gen/Tables.v: op_prec, binop_sql, known_funcs, writer_arity, writer_template, builtin_idents"]),
  "C02": dict(
-   corr=[("pipes-exh-3", "compile", 0, 0), ("pipes", "compile", 3000, 30000)],
+   corr=[("pipes-exh-3", "compile", 0, 0), ("pipes", "compile", 3000, 150000)],
    thorough_corr=[("pipes-exh-4", "compile", 0, 0)],
-   oracle=[("pipes-exh-3", "reread", 0, 0), ("pipes", "reread", 3000, 30000), ("pipes", "oracle-C13", 1500, 15000)],
+   oracle=[("pipes-exh-3", "reread", 0, 0), ("pipes", "reread", 3000, 150000), ("pipes", "oracle-C13", 1500, 75000)],
    thorough_oracle=[("pipes-exh-4", "reread", 0, 0)],
    oracle_for_stage={"compile": ["reread"]},
    corpus=["compile.txt"], tables=["Gen/AstTables.v: can_attach_sort, split_cond_sort, split_cond_take, split_cond_top"],
@@ -57,73 +57,73 @@ PROPS = {
    assumptions=["order-preserving reading of subqueries (a CTE keeps its row order when read by the next SELECT) is an assumption about the target dialect",
                 "the theorem is stated on the structured subqueries of the model; that the emitted text denotes them is tied by byte-exact correspondence of the rendering"]),
  "C05": dict(
-   corr=[("prog", "compile", 3000, 30000), ("prog-mut", "compile", 3000, 30000), ("pipes", "compile", 1500, 15000), ("joins", "compile", 1500, 15000)],
-   oracle=[("prog", "reread", 3000, 30000), ("prog-mut", "reread", 3000, 30000), ("pipes", "reread", 1500, 15000), ("joins", "reread", 1500, 15000),
-           ("prog-mut", "oracle-C13", 1500, 15000)],
+   corr=[("prog", "compile", 3000, 150000), ("prog-mut", "compile", 3000, 150000), ("pipes", "compile", 1500, 75000), ("joins", "compile", 1500, 75000)],
+   oracle=[("prog", "reread", 3000, 150000), ("prog-mut", "reread", 3000, 150000), ("pipes", "reread", 1500, 75000), ("joins", "reread", 1500, 75000),
+           ("prog-mut", "oracle-C13", 1500, 75000)],
    oracle_for_stage={"compile": ["reread"]},
    corpus=["compile.txt", "reserved.txt"], tables=["Gen/Tables.v: op_prec, binop_sql, join_types"]),
  "C06": dict(
-   corr=[("lets", "compile", 4000, 40000), ("prog-params", "compile", 3000, 30000), ("signs", "compile", 0, 0), ("joinconds", "compile", 0, 0)],
-   oracle=[("lets", "reread", 4000, 40000), ("prog-params", "reread", 3000, 30000), ("signs", "reread", 0, 0), ("joinconds", "reread", 0, 0),
-           ("lets", "oracle-C13", 2000, 20000), ("lets", "oracle-C14", 500, 5000)],
+   corr=[("lets", "compile", 4000, 200000), ("prog-params", "compile", 3000, 150000), ("signs", "compile", 0, 0), ("joinconds", "compile", 0, 0)],
+   oracle=[("lets", "reread", 4000, 200000), ("prog-params", "reread", 3000, 150000), ("signs", "reread", 0, 0), ("joinconds", "reread", 0, 0),
+           ("lets", "oracle-C13", 2000, 100000), ("lets", "oracle-C14", 500, 25000)],
    oracle_for_stage={"compile": ["reread"]},
    corpus=["compile.txt"], tables=["Gen/Tables.v: builtin_idents"]),
  "C07": dict(
-   corr=[("prog", "parse", 4000, 40000), ("expr", "parse", 3000, 30000), ("prog-flat", "parse", 2000, 20000), ("pipes", "parse", 1500, 15000), ("joins", "parse", 1500, 15000)],
-   oracle=[("expr", "oracle-C07", 3000, 30000), ("prog", "oracle-C07", 2000, 20000), ("prog-mut", "oracle-C07", 2000, 20000), ("joins", "oracle-C07", 1000, 10000)],
+   corr=[("prog", "parse", 4000, 200000), ("expr", "parse", 3000, 150000), ("prog-flat", "parse", 2000, 100000), ("pipes", "parse", 1500, 75000), ("joins", "parse", 1500, 75000)],
+   oracle=[("expr", "oracle-C07", 3000, 150000), ("prog", "oracle-C07", 2000, 100000), ("prog-mut", "oracle-C07", 2000, 100000), ("joins", "oracle-C07", 1000, 50000)],
    oracle_for_stage={"parse": ["oracle-C07", "oracle-C08"]},
    corpus=["parse.txt"], tables=["Gen/Tables.v: op_prec, keywords, join_types"]),
  "C08": dict(
-   corr=[("prog-mut", "parse", 6000, 60000), ("bytes-rand", "parse", 3000, 30000), ("prog", "parse", 2000, 20000), ("bytes-exh-3", "parse", 0, 0), ("deep", "parse", 200, 2000), ("eof", "parse", 600, 3000), ("eof", "scan", 600, 3000)],
-   oracle=[("prog-mut", "oracle-C08", 6000, 60000), ("prog", "oracle-C08", 3000, 30000), ("prog-hostile", "oracle-C08", 2000, 20000), ("bytes-rand", "oracle-C08", 2000, 20000), ("eof", "oracle-C08", 600, 3000)],
+   corr=[("prog-mut", "parse", 6000, 300000), ("bytes-rand", "parse", 3000, 150000), ("prog", "parse", 2000, 100000), ("bytes-exh-3", "parse", 0, 0), ("deep", "parse", 200, 10000), ("eof", "parse", 600, 15000), ("eof", "scan", 600, 15000)],
+   oracle=[("prog-mut", "oracle-C08", 6000, 300000), ("prog", "oracle-C08", 3000, 150000), ("prog-hostile", "oracle-C08", 2000, 100000), ("bytes-rand", "oracle-C08", 2000, 100000), ("eof", "oracle-C08", 600, 15000)],
    oracle_for_stage={"parse": ["oracle-C08", "oracle-C07"]},
    corpus=["parse.txt"], tables=["Gen/Tables.v: op_prec"]),
  "C10": dict(
-   corr=[("prog", "spans", 4000, 40000), ("prog", "parse", 3000, 30000), ("prog-mut", "parse", 3000, 30000), ("prog-hostile", "spans", 1500, 15000), ("joins", "spans", 1000, 10000),
-         ("prog", "compile", 4000, 40000), ("prog-mut", "compile", 2000, 20000)],
-   oracle=[("prog", "oracle-C10", 4000, 40000), ("prog-mut", "oracle-C10", 3000, 30000), ("prog-hostile", "oracle-C10", 1500, 15000), ("bytes-rand", "oracle-C10", 1500, 15000)],
+   corr=[("prog", "spans", 4000, 200000), ("prog", "parse", 3000, 150000), ("prog-mut", "parse", 3000, 150000), ("prog-hostile", "spans", 1500, 75000), ("joins", "spans", 1000, 50000),
+         ("prog", "compile", 4000, 200000), ("prog-mut", "compile", 2000, 100000)],
+   oracle=[("prog", "oracle-C10", 4000, 200000), ("prog-mut", "oracle-C10", 3000, 150000), ("prog-hostile", "oracle-C10", 1500, 75000), ("bytes-rand", "oracle-C10", 1500, 75000)],
    oracle_for_stage={"parse": ["oracle-C10"], "spans": ["oracle-C10"], "compile": ["oracle-C10"]},
    corpus=["parse.txt"], tables=["Gen/AstTables.v: ast_fields, span_parts"],
    assumptions=["spans inside the partial trees returned with a parse error are checked on the implementation only (the model builds no partial trees)"]),
  "C11": dict(
-   corr=[("walk", "walk", 6000, 60000)],
-   oracle=[("walk", "oracle-C11", 6000, 60000)],
+   corr=[("walk", "walk", 6000, 300000)],
+   oracle=[("walk", "oracle-C11", 6000, 300000)],
    oracle_for_stage={"walk": ["oracle-C11"]},
    corpus=["walk.txt"], tables=["Gen/AstTables.v: walk_children, ast_fields"]),
  "C12": dict(
-   corr=[("bytes-rand", "scan", 2000, 20000, "status"), ("bytes-rand", "parse", 3000, 30000, "status"), ("prog-mut", "compile", 3000, 30000, "status"),
-         ("deep", "compile", 300, 3000, "status"), ("deep", "parse", 300, 3000, "status"), ("walk", "walk", 2000, 20000, "status"), ("prog-params", "compile", 1500, 15000, "status")],
-   oracle=[("bytes-rand", "oracle-C12", 3000, 30000), ("prog-mut", "oracle-C12", 3000, 30000), ("deep", "oracle-C12", 300, 3000), ("prog-params", "oracle-C12", 1500, 15000), ("bytes-exh-3", "oracle-C12", 0, 0)],
+   corr=[("bytes-rand", "scan", 2000, 100000, "status"), ("bytes-rand", "parse", 3000, 150000, "status"), ("prog-mut", "compile", 3000, 150000, "status"),
+         ("deep", "compile", 300, 15000, "status"), ("deep", "parse", 300, 15000, "status"), ("walk", "walk", 2000, 100000, "status"), ("prog-params", "compile", 1500, 75000, "status")],
+   oracle=[("bytes-rand", "oracle-C12", 3000, 150000), ("prog-mut", "oracle-C12", 3000, 150000), ("deep", "oracle-C12", 300, 15000), ("prog-params", "oracle-C12", 1500, 75000), ("bytes-exh-3", "oracle-C12", 0, 0)],
    corpus=["parse.txt", "lex.txt", "compile.txt"], tables=["Gen/AstTables.v: walk_children"],
    assumptions=["wall-clock time, Go stack growth and allocation are observed by the harness watchdog (5 s per call), not proved"]),
  "C13": dict(
-   corr=[("rules", "compile", 5000, 50000, "status"), ("prog-mut", "compile", 3000, 30000, "status"), ("prog-params", "compile", 2000, 20000, "status"), ("lets", "compile", 1500, 15000, "status")],
-   oracle=[("lets", "oracle-C14", 500, 5000), ("rules", "oracle-C13", 5000, 50000), ("prog-mut", "oracle-C13", 3000, 30000), ("prog-params", "oracle-C13", 2000, 20000), ("lets", "oracle-C13", 1500, 15000), ("bytes-rand", "oracle-C13", 1500, 15000)],
+   corr=[("rules", "compile", 5000, 250000, "status"), ("prog-mut", "compile", 3000, 150000, "status"), ("prog-params", "compile", 2000, 100000, "status"), ("lets", "compile", 1500, 75000, "status")],
+   oracle=[("lets", "oracle-C14", 500, 25000), ("rules", "oracle-C13", 5000, 250000), ("prog-mut", "oracle-C13", 3000, 150000), ("prog-params", "oracle-C13", 2000, 100000), ("lets", "oracle-C13", 1500, 75000), ("bytes-rand", "oracle-C13", 1500, 75000)],
    oracle_for_stage={"compile": ["oracle-C13"]},
    corpus=["compile.txt"], tables=["Gen/Tables.v: known_funcs, writer_arity, join_types"]),
  "C14": dict(
-   corr=[("prog-params", "compile", 3000, 30000), ("lets", "compile", 1500, 15000)],
-   oracle=[("prog-params", "oracle-C14", 1500, 15000), ("lets", "oracle-C14", 1500, 15000), ("prog-mut", "oracle-C14", 1000, 10000)],
+   corr=[("prog-params", "compile", 3000, 150000), ("lets", "compile", 1500, 75000)],
+   oracle=[("prog-params", "oracle-C14", 1500, 75000), ("lets", "oracle-C14", 1500, 75000), ("prog-mut", "oracle-C14", 1000, 50000)],
    race=True,
-   repeat=[("rules", "resulttext", 150, 600, 12)],
+   repeat=[("rules", "resulttext", 150, 3000, 12)],
    corpus=["compile.txt"], tables=["Gen/Shared.v: package_vars, write_sites"],
    assumptions=["absence of data races under the Go memory model is observed with the race detector (harness built with -race for the C14 oracle), not proved; sync.Once's contract is trusted"]),
  "C16": dict(
-   corr=[("script", "cli", 2500, 25000)],
-   oracle=[("script", "oracle-C16", 2500, 25000)],
+   corr=[("script", "cli", 2500, 125000)],
+   oracle=[("script", "oracle-C16", 2500, 125000)],
    oracle_for_stage={"cli": ["oracle-C16"]},
    corpus=["cli.txt"], tables=[],
    assumptions=["OS-level I/O (partial writes, signals, terminal detection, file-system errors other than a missing file) is outside the model",
                 "bufio.Scanner's line splitting and 64 KiB limit are modelled in events_of (coq/Model/Show.v) and tied by correspondence"]),
  "C04": dict(
-   corr=[("prog-hostile", "compile", 6000, 60000), ("prog-hostile", "scan", 2000, 20000), ("lit", "scan", 2000, 20000), ("prog-hostile", "parse", 2000, 20000)],
-   oracle=[("prog-hostile", "reread", 6000, 60000), ("prog-hostile", "oracle-C09", 2000, 20000)],
+   corr=[("prog-hostile", "compile", 6000, 300000), ("prog-hostile", "scan", 2000, 100000), ("lit", "scan", 2000, 100000), ("prog-hostile", "parse", 2000, 100000)],
+   oracle=[("prog-hostile", "reread", 6000, 300000), ("prog-hostile", "oracle-C09", 2000, 100000)],
    oracle_for_stage={"compile": ["reread"]},
    corpus=["compile.txt"], tables=[]),
  "C03": dict(
-   corr=[("joins", "compile", 5000, 50000), ("joinconds", "compile", 0, 0), ("prog", "compile", 2000, 20000), ("joins", "parse", 1500, 15000)],
-   oracle=[("joins", "reread", 5000, 50000), ("joinconds", "reread", 0, 0), ("prog", "reread", 2000, 20000),
-           ("joins", "oracle-C13", 2000, 20000), ("joins", "oracle-C12", 1000, 10000)],
+   corr=[("joins", "compile", 5000, 250000), ("joinconds", "compile", 0, 0), ("prog", "compile", 2000, 100000), ("joins", "parse", 1500, 75000)],
+   oracle=[("joins", "reread", 5000, 250000), ("joinconds", "reread", 0, 0), ("prog", "reread", 2000, 100000),
+           ("joins", "oracle-C13", 2000, 100000), ("joins", "oracle-C12", 1000, 50000)],
    oracle_for_stage={"compile": ["reread"]},
    corpus=["compile.txt"], tables=["Gen/Tables.v: join_types, builtin_idents", "Gen/AstTables.v: can_attach_sort, split_cond_*"],
    trusted_extra=["standard-library axiom FunctionalExtensionality.functional_extensionality_dep: used only by C03_joins, to identify the SQL and PQL expression evaluators (C03_joins_generic is axiom-free)",
